@@ -977,18 +977,20 @@ func SplitMrt(data []byte, atEOF bool) (advance int, token []byte, err error) {
 	if atEOF && len(data) == 0 {
 		return 0, nil, nil
 	}
-	if cap(data) < MRT_COMMON_HEADER_LEN { // read more
+	// Only the octets of data count: its spare capacity holds stale octets.
+	if len(data) < MRT_COMMON_HEADER_LEN { // read more
 		return 0, nil, nil
 	}
-	hdr, errh := ParseHeader(data[:MRT_COMMON_HEADER_LEN])
-	if errh != nil {
-		return 0, nil, errh
-	}
-	totlen := int(hdr.Len + MRT_COMMON_HEADER_LEN)
-	if len(data) < totlen { // need to read more
+	// The length field is all the splitter needs. It is read directly (an
+	// extended-timestamp header is longer than the common header, RFC 6396
+	// section 3, and its microseconds are counted by the length field) and the
+	// record length is computed in 64 bits: in uint32 a length field of
+	// 0xfffffff4 and above wrapped to a record shorter than its own header.
+	totlen := uint64(binary.BigEndian.Uint32(data[8:12])) + MRT_COMMON_HEADER_LEN
+	if uint64(len(data)) < totlen { // need to read more
 		return 0, nil, nil
 	}
-	return totlen, data[:totlen], nil
+	return int(totlen), data[:totlen], nil
 }
 
 func ParseBody(data []byte, h *MRTHeader) (*MRTMessage, error) {
